@@ -540,6 +540,60 @@ def TH(name):
     return ["this", name]
 
 
+def zero_size_terms():
+    """every wrapper over a child of size 0 (Bytes(0), empty Array/Struct/Sequence, Pass, Padding(0), Computed): the boundary where
+    "nothing to transform" shortcuts live; also as a member followed by real data"""
+    S = lambda *ms: ["Struct", [list(m) for m in ms]]
+    bit = ["BitsInteger", 1, False, False, "Bit"]
+    zeros = [["Bytes", 0], ["Array", 0, BYTE], S(), ["Sequence", []], ["Pass"], ["Padding", 0], ["ConstB", b""], ["Array", 3, ["Pass"]]]
+    bitzeros = [["Array", 0, bit], S(), ["Pass"], ["Padding", 0], ["Bytes", 0]]
+    out = []
+    for z in zeros:
+        ws = [["ByteSwapped", z], ["BitsSwapped", z], ["Prefixed", BYTE, z, False], ["FixedSized", 0, z], ["FixedSized", 2, z], ["Padded", 0, z, b"\x00"],
+              ["Padded", 2, z, b"\x00"], ["Aligned", 2, z, b"\x00"], ["NullTerminated", z, b"\x00", False, True, True], ["NullStripped", z, b"\x00"],
+              ["ProcessXor", 0x20, z], ["ProcessRotateLeft", 3, 1, z], ["RawCopy", z], ["Array", 2, z], ["PrefixedArray", BYTE, z], ["Optional", z],
+              ["Peek", z], ["Pointer", 0, z], ["Hex", z], ["If", True, z], ["Rebuild", z, None] if z[0] in ("Pass",) else ["If", False, z]]
+        for w in ws:
+            out.append(w)
+            out.append(S(("h", BYTE), ("z", w), ("t", BYTE)))
+    for z in bitzeros:
+        for w in (["Bitwise", z], ["Bitwise", ["Bytewise", ["Bytes", 0]]]):
+            out.append(w)
+            out.append(S(("h", BYTE), ("z", w), ("t", BYTE)))
+        out.append(["Bitwise", S(("a", ["BitsInteger", 8, False, False]), ("z", z))])
+    seen, res = set(), []
+    for t in out:
+        k = repr(t)
+        if k not in seen:
+            seen.add(k)
+            res.append(t)
+    return res
+
+
+def select_records():
+    """Select / Optional between record layouts whose earlier alternative fails late (after earlier fields were processed),
+    inside hosts where anything left behind by a failed alternative shows (Terminated, greedy tails, region ends, a second record)"""
+    S = lambda *ms: ["Struct", [list(m) for m in ms]]
+    I32, I16 = I(4, False, "b"), I(2, False, "b")
+    wide = S(("v", I32), ("u", ["OneOf", BYTE, [1, 2, 3]]))
+    narrow = S(("v", I16), ("u", ["NoneOf", BYTE, [1, 2, 3]]))
+    tagged = S(("v", I16), ("w", I16), ("u", ["ConstV", 0x7f, BYTE]))
+    seq = ["Sequence", [[None, I16], [None, ["OneOf", BYTE, [0x80, 0xff]]]]]
+    recs = [["Select", [wide, narrow]], ["Select", [tagged, narrow]], ["Select", [wide, tagged, narrow]], ["Select", [tagged, wide, BYTE]],
+            ["Select", [S(("v", I32), ("u", ["OneOf", BYTE, [1]])), BYTE]], ["Select", [seq, I16]], ["Select", [["Array", 3, ["OneOf", BYTE, [1, 2]]], BYTE]],
+            ["Select", [["Prefixed", BYTE, S(("v", I16), ("u", ["OneOf", BYTE, [1]])), False], I16]]]
+    out = []
+    for rsel in recs:
+        out.append(rsel)
+        out.append(S(("rec", rsel), (None, ["Terminated"])))
+        out.append(S(("rec", rsel), ("rest", ["GreedyBytes"])))
+        out.append(["Prefixed", BYTE, S(("rec", rsel), ("tail", ["GreedyRange", BYTE])), False])
+        out.append(["FixedSized", 3, ["Sequence", [[None, rsel], [None, ["GreedyBytes"]]]]])
+        out.append(S(("a", rsel), ("b", rsel), (None, ["Terminated"])))
+        out.append(S(("n", BYTE), ("recs", ["Array", ["this", "n"], rsel]), ("rest", ["GreedyBytes"])))
+    return out
+
+
 def discard_terms():
     """repeaters built with discard=True (nothing collected; bytes, positions, context effects and failures are unchanged):
     alone, as the last sized member before zero-size members, and with a count taken from the context"""
